@@ -53,7 +53,9 @@ Weightwatch_Traits::get() {
 
 inline bool
 Weightwatch_Traits::less_than(const Threshold& a, const Threshold& b) {
-  return b - a < (1ULL << (sizeof_to_bits(sizeof(Threshold)) - 1));
+  // Strict wrap-around comparison: `a' precedes `b' if and only if the
+  // (modular) distance from `a' to `b' is in [1, 2^63 - 1].
+  return b - a - 1 < (1ULL << (sizeof_to_bits(sizeof(Threshold)) - 1)) - 1;
 }
 
 inline Weightwatch_Traits::Delta
